@@ -177,6 +177,19 @@ def one_record(seed):
                 else:
                     el = UserFieldDecl("n", value=v)
                 read = lambda e: e.get_value()  # noqa: E731
+            elif rng.random() < 0.5:
+                # the field takes its value from the document's metadata entry of that name (from_document=)
+                d0 = Document("text")
+                if overwrite:
+                    d0.meta.set_user_defined_metadata("n", other)
+                d0.meta.set_user_defined_metadata("n", v)
+                el = UserDefined("n", from_document=d0)
+                read = lambda e: e.get_value()  # noqa: E731
+                rec["via"] = "from_document"
+                if kind == "date":
+                    # the metadata entry of a plain date reads as that day at midnight: this is the value the field receives
+                    kind, v = "datetime", datetime(v.year, v.month, v.day)
+                    rec["kind"] = kind
             else:
                 el = UserDefined("n", value=v)
                 read = lambda e: e.get_value()  # noqa: E731
